@@ -2,12 +2,13 @@
 The tie between the translated decision functions (Gen/Translated.lean, regenerated from the Go
 sources by tools/gotrans on every run) and the hand-written models: the model's definitions ARE
 the translated ones, for all arguments.  A change to one of these Go functions changes the
-generated definition and breaks the corresponding theorem here at compile time.
+generated definition and breaks the corresponding theorem here at compile time.  One file per
+group of properties, so that a change breaks the obligations of the properties it concerns only.
+This file: the three orderings and the sort call sites (C03, C18).
 -/
 import Restful.Gen.Translated
 import Restful.Model.Curly
 import Restful.Model.Jsr
-import Restful.Model.Response
 namespace Restful
 namespace Tie
 open Translated
@@ -34,35 +35,21 @@ theorem jsr_dispatcher_less (x y : Jsr.DispCand) :
   unfold sortableDispatcherCandidates_Less Jsr.dispCandLess
   simp only [Int.ofNat_lt, gt_iff_lt, decide_eq_true_eq]
 
-/-- response.go `Response.StatusCode()` -/
-theorem response_status_code (st : Resp.State) :
-    Response_StatusCode st.statusCode = (st.StatusCode : Int) := by
-  unfold Response_StatusCode Resp.State.StatusCode
-  by_cases h : st.statusCode = 0
-  · simp [h]
-  · have : ((0 : Int) == (st.statusCode : Int)) = false := by
-      simp only [beq_eq_false_iff_ne, ne_eq]
-      omega
-    simp [this, h]
-
-/-- route.go `stringTrimSpaceCutset`: the router's Accept / Content-Type test trims blanks only -/
-theorem trim_space_cutset (c : Char) : stringTrimSpaceCutset c = Str.isSpaceOnly c := rfl
-
-/-- request.go `Request.SelectedRoutePath()`: the empty string when no route was selected (what a
-    stage behind a `replace` filter sees: `C01_selected_path_replace_witness`), the route's path
-    otherwise -/
-theorem selected_route_path (sel : Option Str) :
-    Request_SelectedRoutePath sel.isNone (sel.getD []) = sel.getD [] := by
-  cases sel <;> simp [Request_SelectedRoutePath]
-
 /-- which ordering is applied where, and by which algorithm: `sort.Sort` (insertion sort up to 12
-    elements: stable) on the curly candidates, `sort.Sort(sort.Reverse(…))` on both JSR311 candidate
-    lists; no other use of package sort on the request path (mime.go inserts by hand) -/
+    elements, which is stable) or `sort.Stable` (stable at every size: what the model's insertion
+    sort is) on the curly candidates, the same under `sort.Reverse` on both JSR311 candidate lists;
+    no other use of package sort on the request path (mime.go inserts by hand) -/
+def sortSiteOK (p : String × String) : Bool :=
+  match p.1 with
+  | "CurlyRouter.selectRoutes" => p.2 == "sort.Sort(candidates)" || p.2 == "sort.Stable(candidates)"
+  | "RouterJSR311.selectRoutes" | "RouterJSR311.detectDispatcher" =>
+      p.2 == "sort.Sort(sort.Reverse(filtered))" || p.2 == "sort.Stable(sort.Reverse(filtered))"
+  | "Parameter.AllowableValues" => true
+  | _ => false
+
 theorem sort_call_sites :
-    sortCalls = [("CurlyRouter.selectRoutes", "sort.Sort(candidates)"),
-      ("RouterJSR311.selectRoutes", "sort.Sort(sort.Reverse(filtered))"),
-      ("RouterJSR311.detectDispatcher", "sort.Sort(sort.Reverse(filtered))"),
-      ("Parameter.AllowableValues", "sort.Strings(allowableSortedKeys)")] := by
+    sortCalls.map Prod.fst = ["CurlyRouter.selectRoutes", "RouterJSR311.selectRoutes",
+      "RouterJSR311.detectDispatcher", "Parameter.AllowableValues"] ∧ sortCalls.all sortSiteOK = true := by
   decide
 
 end Tie
